@@ -21,6 +21,13 @@ type Config struct {
 	Name  string            `json:"name"`
 	Oblig []string          `json:"oblig"` // obligatory print directives (custom directives to install)
 	Fns   map[string]string `json:"fns"`   // custom function -> builtin whose semantics it has
+	// Sfx: the custom print directives to install, each appending its suffix
+	// (nil: one directive per name in Oblig, "exclaim" appending "!")
+	Sfx map[string]string `json:"sfx,omitempty"`
+	// what the Renderer is given: IJ "b" = the alternative injected data;
+	// NoMsgs = no message catalogue
+	IJ     string `json:"ij,omitempty"`
+	NoMsgs bool   `json:"noMsgs,omitempty"`
 }
 
 // Configs are the four configurations of the model (SoyBundle!TheCfg).
@@ -41,19 +48,25 @@ func ConfigByName(n string) (Config, bool) {
 	return Config{}, false
 }
 
-func vmax2(args []data.Value) data.Value {
-	a, ok1 := args[0].(data.Int)
-	b, ok2 := args[1].(data.Int)
-	if !ok1 || !ok2 {
-		panic("vmax2: integer arguments required")
+// vfn is the custom function vmax2 with the semantics of the builtin max or
+// min (two implementations that can be installed under the one name).
+func vfn(builtin string) func(args []data.Value) data.Value {
+	return func(args []data.Value) data.Value {
+		a, ok1 := args[0].(data.Int)
+		b, ok2 := args[1].(data.Int)
+		if !ok1 || !ok2 {
+			panic("vmax2: integer arguments required")
+		}
+		if (a >= b) == (builtin == "max") {
+			return a
+		}
+		return b
 	}
-	if a >= b {
-		return a
-	}
-	return b
 }
 
-func exclaim(v data.Value, _ []data.Value) data.Value { return data.String(v.String() + "!") }
+func suffixer(sfx string) func(v data.Value, _ []data.Value) data.Value {
+	return func(v data.Value, _ []data.Value) data.Value { return data.String(v.String() + sfx) }
+}
 
 // GlobalRoots are the process-wide extension registries of robfig/soy.
 func GlobalRoots() []Root {
@@ -74,15 +87,27 @@ func Install(c Config) (restore func() error, err error) {
 	before := DigestOf(GlobalRoots()...)
 	origOblig := soyhtml.ObligatoryPrintDirectiveNames
 	var dirs, fns []string
-	for _, d := range c.Oblig {
-		if d != "exclaim" {
-			return nil, fmt.Errorf("unknown custom directive %q", d)
+	sfx := c.Sfx
+	if sfx == nil {
+		sfx = map[string]string{}
+		for _, d := range c.Oblig {
+			if d != "exclaim" {
+				return nil, fmt.Errorf("unknown custom directive %q", d)
+			}
+			sfx[d] = "!"
 		}
+	}
+	var dnames []string
+	for d := range sfx {
+		dnames = append(dnames, d)
+	}
+	sort.Strings(dnames)
+	for _, d := range dnames {
 		if _, dup := soyhtml.PrintDirectives[d]; dup {
 			return nil, fmt.Errorf("directive %q already installed", d)
 		}
-		soyhtml.PrintDirectives[d] = soyhtml.PrintDirective{Apply: exclaim, ValidArgLengths: []int{0}, CancelAutoescape: false}
-		soyjs.PrintDirectives[d] = soyjs.PrintDirective{Name: "verif.$$exclaim", CancelAutoescape: false}
+		soyhtml.PrintDirectives[d] = soyhtml.PrintDirective{Apply: suffixer(sfx[d]), ValidArgLengths: []int{0}, CancelAutoescape: false}
+		soyjs.PrintDirectives[d] = soyjs.PrintDirective{Name: "verif.$$" + d, CancelAutoescape: false}
 		dirs = append(dirs, d)
 	}
 	if len(c.Oblig) > 0 {
@@ -90,15 +115,16 @@ func Install(c Config) (restore func() error, err error) {
 		soyhtml.ObligatoryPrintDirectiveNames = append(append([]string{}, origOblig...), c.Oblig...)
 	}
 	for f := range c.Fns {
-		if f != "vmax2" {
-			return nil, fmt.Errorf("unknown custom function %q", f)
+		if f != "vmax2" || (c.Fns[f] != "max" && c.Fns[f] != "min") {
+			return nil, fmt.Errorf("unknown custom function %q = %q", f, c.Fns[f])
 		}
+		builtin := c.Fns[f]
 		if _, dup := soyhtml.Funcs[f]; dup {
 			return nil, fmt.Errorf("function %q already installed", f)
 		}
-		soyhtml.Funcs[f] = soyhtml.Func{Apply: vmax2, ValidArgLengths: []int{2}}
+		soyhtml.Funcs[f] = soyhtml.Func{Apply: vfn(builtin), ValidArgLengths: []int{2}}
 		soyjs.Funcs[f] = soyjs.Func{Name: f, ValidArgLengths: []int{2}, Apply: func(js soyjs.JSWriter, args []ast.Node) {
-			js.Write("Math.max(", args[0], ",", args[1], ")")
+			js.Write("Math."+builtin+"(", args[0], ",", args[1], ")")
 		}}
 		fns = append(fns, f)
 	}
@@ -165,6 +191,7 @@ type Instance struct {
 	ExprNode ast.Node
 	Data     map[string]data.Map
 	IJ       data.Map // nil = none
+	NoMsgs   bool     // render without a catalogue
 }
 
 // Inputs describes the bundle and the caller's values of an instance.
@@ -252,9 +279,15 @@ type Op struct {
 	T  string `json:"t,omitempty"` // template
 	D  string `json:"d,omitempty"` // data set
 	F  string `json:"f,omitempty"` // file
+	C  string `json:"c,omitempty"` // configuration (setcfg)
 }
 
-func (o Op) Key() string { return o.Op + ":" + o.T + ":" + o.D + ":" + o.F }
+func (o Op) Key() string {
+	if o.C != "" {
+		return o.Op + ":" + o.C
+	}
+	return o.Op + ":" + o.T + ":" + o.D + ":" + o.F
+}
 
 // Obs is what an operation did.
 type Obs struct {
@@ -262,6 +295,7 @@ type Obs struct {
 	Out      string `json:"out"`
 	ErrText  string `json:"errText,omitempty"`
 	Panicked bool   `json:"panicked,omitempty"`
+	Log      string `json:"log,omitempty"` // what {log} commands sent to the logger in force (switch family)
 }
 
 // Do performs the operation through the public API.
@@ -275,7 +309,10 @@ func (in *Instance) Do(o Op) (obs Obs) {
 	var err error
 	switch o.Op {
 	case "render":
-		r := in.Comp.Tofu.NewRenderer(o.T).WithMessages(in.Cat)
+		r := in.Comp.Tofu.NewRenderer(o.T)
+		if !in.NoMsgs {
+			r.WithMessages(in.Cat)
+		}
 		if in.IJ != nil {
 			r.Inject(in.IJ)
 		}
